@@ -160,7 +160,8 @@ class SchemaLoaderXML(SchemaLoader):
         tag_entry = self._schema._create_tag_entry(node_name, key_class)
 
         if attribute_desc:
-            tag_entry.description = attribute_desc
+            # The MediaWiki and TSV readers strip descriptions; do the same so the formats agree.
+            tag_entry.description = attribute_desc.strip()
 
         for attribute_element in node_element:
             if attribute_element.tag != xml_constants.ATTRIBUTE_PROPERTY_ELEMENTS[key_class]:
